@@ -490,6 +490,13 @@ class SchedSim(object):
                 elif len(s['cores']) != s['nranks'] * cpr:
                     self.bad('C02', 'cores_per_rank:jsrun', '%s: %d cores for %d ranks of %d cores: %s'
                              % (uid, len(s['cores']), s['nranks'], cpr, s))
+                # a resource set holds the node-local storage / memory of all its ranks
+                for k in ('lfs', 'mem'):
+                    want = s['nranks'] * (td.get('%s_per_rank' % k) or 0)
+                    if (s.get(k) or 0) != want:
+                        self.bad('C02', '%s_per_rank:jsrun' % k, '%s: resource set of %d ranks holds %s=%s, '
+                                 '%s per rank requested' % (uid, s['nranks'], k, s.get(k),
+                                                            td.get('%s_per_rank' % k)))
             if gpr and 0 < gpr < 1:
                 self.stats['frac_gpu'] += 1
             return
